@@ -181,7 +181,7 @@ def order(h):
     h.ensures("live_results_are_written_before_the_gate", iw < ir, why=f"write_data is top-level statement #{iw}, the gate is #{ir}", replay=lambda ev: {"target": "verif_replays:results_saved_before_gate_replay", "args": [], "check": "result['exc'] is None and result['ok']"})
     between = body[iw + 1 : ir]
     h.ensures("nothing_between_them_can_leave_the_function", not any(isinstance(n, (ast.Return, ast.Raise)) for st in between for n in ast.walk(st)))
-    h.ensures("write_guard_is_exactly_nonlocal_and_results", test == "APP_ENV != 'local' and self.save_results", why=test)
+    h.ensures("write_guard_is_exactly_nonlocal_and_results", test == "APP_ENV != 'local' and self.save_results", why=test, replay=lambda ev: {"target": "verif_replays:results_saved_before_gate_replay", "args": [], "check": "result['exc'] is None and result['ok']"})
 
 
 class FakeS3:
